@@ -493,6 +493,9 @@ func (r *RigS) acked(tgt int, tag int64) bool {
 	return false
 }
 
+// ackedLocked is acked for callers that run inside a downstream call (the downstream's lock is held by the caller).
+func (r *RigS) ackedLocked(tgt int, tag int64) bool { return r.acked(tgt, tag) }
+
 func (r *RigS) ackedSet(tgt int) map[int64]int {
 	out := map[int64]int{}
 	for _, a := range r.st.SDK[tgt].Acks {
